@@ -6,6 +6,7 @@ use crate::classic::clvm::__type_compatibility__::bi_one;
 
 use crate::compiler::sexp::SExp;
 use crate::compiler::srcloc::Srcloc;
+use crate::util::{u8_from_number, Number};
 
 /// The primitives in clvm that are known about.
 pub fn prims() -> Vec<(Vec<u8>, SExp)> {
@@ -216,6 +217,27 @@ pub fn prim_map() -> Rc<HashMap<Vec<u8>, Rc<SExp>>> {
         out_map.insert(p.0, Rc::new(p.1));
     }
     Rc::new(out_map)
+}
+
+/// The name under which a call with this integer operator should be looked up.
+/// An integer head is an opcode; its byte spelling serves as its name unless
+/// that spelling names a different primitive (61, %, is spelled "=" and 62,
+/// keccak256, is spelled ">"): then the opcode's own name is used.
+pub fn name_for_opcode(prim_map: &HashMap<Vec<u8>, Rc<SExp>>, opcode: &Number) -> Vec<u8> {
+    let spelled = u8_from_number(opcode.clone());
+    let is_opcode = |p: &Rc<SExp>| matches!(p.as_ref(), SExp::Integer(_, n) if n == opcode);
+    match prim_map.get(&spelled) {
+        Some(p) if !is_opcode(p) => {
+            let mut names: Vec<&Vec<u8>> = prim_map
+                .iter()
+                .filter(|(_, p)| is_opcode(p))
+                .map(|(name, _)| name)
+                .collect();
+            names.sort();
+            names.first().map(|n| (*n).clone()).unwrap_or(spelled)
+        }
+        _ => spelled,
+    }
 }
 
 pub fn primquote(l: Srcloc, a: Rc<SExp>) -> SExp {
